@@ -173,7 +173,10 @@ class SymRandom(random.Random):
     pass
 
   def __reduce__(self):
-    return (SymRandom, (list(self.draws),))
+    return (SymRandom, (list(self.script) if self.script is not None else list(self.draws),))
+
+  def __repr__(self):
+    return f'SymRandom(script={self.script if self.script is not None else self.draws!r})'
 
   def __deepcopy__(self, memo):
     return self
